@@ -75,7 +75,9 @@ struct Model {
     generic: bool,
 }
 
-const BASES: [&str; 19] = [
+const BASES: [&str; 22] = [
+    // an Option inside the type (element, map value, nested generic argument) says nothing about the field
+    "Vec<Option<u32>>", "HashMap<String, Option<Leaf>>", "Vec<Vec<Option<String>>>",
     "u32", "String", "bool", "f64", "I54", "char", "()", "Vec<u8>", "Vec<String>", "HashMap<String, u32>", "[u16; 2]", "Leaf", "Vec<Leaf>", "HashMap<String, Vec<Leaf>>",
     // slices: written like Vec<T> by every backend, but not what Go's `no_pointer_slice` is about
     "&'static [u16]", "Box<[Leaf]>", "&'static [Leaf]",
@@ -424,7 +426,7 @@ pub fn run(ctx: &Ctx) -> (Spec, Report) {
     );
     let spec = Spec {
         level: "exploration",
-        rule: format!("{n} programs: for each base type T (primitives, containers incl. slices, user types, generic parameters) the full product {{T, Option<T>, Option<Option<T>>}} x {{no default, #[serde(default)], merged with rename, merged with skip_serializing_if, and three attribute sets without `default` (skip_serializing_if alone, with rename, alias + deserialize_with)}} plus Box/Arc-wrapped forms and groups whose type is replaced by a per-language type override (first {n_exh} programs enumerate it per base type), then random compositions; positions: struct field, struct-variant field, newtype payload, alias; 6 languages (Go with and without `no_pointer_slice`); oracle: marker set per language idiom from `is_option || has_default`, and type equality with a required sibling of the same T; distinct = (language, position, opt/default/wrap cell, base-type class)"),
+        rule: format!("{n} programs: for each base type T (primitives, containers incl. slices and containers of optional elements, user types, generic parameters) the full product {{T, Option<T>, Option<Option<T>>}} x {{no default, #[serde(default)], merged with rename, merged with skip_serializing_if, and three attribute sets without `default` (skip_serializing_if alone, with rename, alias + deserialize_with)}} plus Box/Arc-wrapped forms and groups whose type is replaced by a per-language type override (first {n_exh} programs enumerate it per base type), then random compositions; positions: struct field, struct-variant field, newtype payload, alias; 6 languages (Go with and without `no_pointer_slice`); oracle: marker set per language idiom from `is_option || has_default`, and type equality with a required sibling of the same T; distinct = (language, position, opt/default/wrap cell, base-type class)"),
         assumptions: vec![
             "double options must stay distinguishable only in TypeScript (`?` + `| null`), as the property says".into(),
             "Go newtype payloads are judged on type equality only: the accessor's pointer is an implementation detail of struct-typed payloads".into(),
